@@ -6,6 +6,7 @@ import (
 	"encoding/hex"
 	"fmt"
 	"strings"
+	"sync"
 
 	xmd4 "golang.org/x/crypto/md4"
 
@@ -392,6 +393,54 @@ func hashes() {
 	}
 }
 
+// concurrentCallers: independent hash computations on different goroutines must give the
+// values a single caller gets (no shared scratch state between calls).
+func concurrentCallers() {
+	var wg sync.WaitGroup
+	G := 8
+	per := r.Pick(400, 6000)
+	for g := 0; g < G; g++ {
+		wg.Add(1)
+		go func(g int) {
+			defer wg.Done()
+			rng := r.Rand(fmt.Sprintf("concurrent|%d", g))
+			for i := 0; i < per; i++ {
+				m := gen.Bytes(rng, rng.IntN(200))
+				want := ref.MD4(m)
+				h := md4.New()
+				c := rng.IntN(len(m) + 1)
+				h.Write(m[:c])
+				h.Write(m[c:])
+				if got := h.Sum(); got != want {
+					r.Violation("md4.stream:digest:concurrent", fmt.Sprintf("len=%d cut=%d got %x want %x while other goroutines hash other messages", len(m), c, got, want), map[string]any{"msg_hex": mon.FullHex(m), "cut": c})
+				}
+				pw := gen.UnicodeString(rng, rng.IntN(20), -1)
+				u := gen.UnicodeString(rng, rng.IntN(12), -1)
+				nth := ref.NTHash(pw)
+				if got := nt.NTHash(pw); got != nth {
+					r.Violation("nt.NTHash:value:concurrent", fmt.Sprintf("NTHash(%q)=%x want %x under concurrent callers", pw, got, nth), map[string]any{"password": pw})
+				}
+				if got, want := dcc.DCCHashFromPassword(pw, u), ref.DCC1(nth, u); got != want {
+					r.Violation("dcc.DCCHashFromPassword:value:concurrent", fmt.Sprintf("pw=%q user=%q got %x want %x under concurrent callers", pw, u, got, want), map[string]any{"password": pw, "user": u})
+				}
+				if i%16 == 0 {
+					a := gen.ASCII7(rng, rng.IntN(15))
+					if got, want := lm.LMHash(a), ref.LMHash(a); !bytes.Equal(got, want) {
+						r.Violation("lm.LMHash:value:concurrent", fmt.Sprintf("LMHash(%q)=%x want %x under concurrent callers", a, got, want), map[string]any{"password": a})
+					}
+					want2 := ref.DCC2(nth, u, 3)
+					if got := dcc2.DCC2HashWithNTHash(u, nth, 3); !strings.HasSuffix(strings.ToLower(got), hex.EncodeToString(want2)) {
+						r.Violation("dcc2.DCC2HashWithNTHash:value:concurrent", fmt.Sprintf("got %q want hash %x under concurrent callers", got, want2), map[string]any{"password": pw, "user": u})
+					}
+				}
+				r.Eval(3)
+			}
+		}(g)
+	}
+	wg.Wait()
+	r.Count("concurrent_caller_goroutines", G)
+}
+
 func main() {
 	r = mon.Start("C01", "exploration")
 	r.Rule("MD4: every length 0..N with every 2-way cut plus seeded k-way cuts and long random chunkings; digest-read/write operation strings; NT/LM/DCC/DCC2 on Unicode-class passwords/users/rounds. Non-trivial: a cut vector that crosses a 64-byte block or the 56-byte padding edge, an operation string with >=2 digest reads or a read followed by writes, a distinct (password class, user class, lengths, rounds) tuple.")
@@ -399,5 +448,6 @@ func main() {
 	md4Streaming()
 	md4Interleave()
 	hashes()
+	concurrentCallers()
 	r.Finish()
 }
